@@ -24,6 +24,9 @@ SCALES = (1e-3, 1.0, 1e3)
 NOISY_DIRS = [(1, 2, 3), (3, -5, 7), (-2, 7, 3), (7, 1, -4), (0, 2, 5), (5, 0, -3), (-4, 9, 0),
               (11, 13, 17), (1, 1, 2), (-1, 3, 3)]
 NOISY_T = (-1.0, 0.0, 1.0 / 3.0, 0.5, 0.7, 1.0, 2.0)
+# nearly (not exactly) collinear: middle point this far off the line, relative to |p2 - p0|
+NEAR_EPS = (1e-13, 1e-12, 1e-11, 1e-10, 3e-10, 1e-9, 1e-8, 1e-7, 1e-6, 1e-5, 1e-3)
+NEAR_T = (1.0 / 3.0, 0.5, 0.7, -0.4, 1.6)
 
 _CACHE = {}
 
@@ -129,6 +132,8 @@ class C17(Check):
         step = 2 if tier != 'thorough' else 8
         u += [{'k': 'rot', 'lo': i, 'hi': min(i + step, len(ax))} for i in range(0, len(ax), step)]
         u.append({'k': 'noisy'})
+        u += [{'k': 'near', 'dir': list(d)} for d in NOISY_DIRS]
+        self.bounds['nearly_collinear_offsets'] = list(NEAR_EPS)
         return u
 
     def cases(self, unit, tier, seed):
@@ -142,6 +147,11 @@ class C17(Check):
             for i in range(unit['lo'], unit['hi']):
                 for nm in norms(tier):
                     yield {'k': 'rot', 'axis': ax[i], 'norm': nm, 'tier': tier}
+        elif unit['k'] == 'near':
+            for t in NEAR_T:
+                for eps in NEAR_EPS:
+                    for side in (0, 1):
+                        yield {'k': 'near', 'dir': unit['dir'], 't': t, 'eps': eps, 'side': side}
         else:
             for d in NOISY_DIRS:
                 yield {'k': 'noisy', 'dir': list(d)}
@@ -157,6 +167,13 @@ class C17(Check):
                 cls = geom_class(p0, p1, p2)
                 self._frames(dict(case, p1=p1), R, seed, np.array(p0, float), np.array(p1, float),
                              np.array(p2, float), cls)
+        elif case['k'] == 'near':
+            d = np.array(case['dir'], float)
+            perp = np.cross(d, [0.0, 0.0, 1.0] if case['side'] == 0 else [1.0, 0.3, -0.2])
+            perp /= np.linalg.norm(perp)
+            p0 = np.array([0.25, -0.5, 1.0])
+            p1 = p0 + case['t'] * d + case['eps'] * np.linalg.norm(d) * perp
+            self._frames(case, R, seed, p0, p1, p0 + d, 'line-nearly-collinear')
         else:
             d = np.array(case['dir'], float)
             ts = [case['t']] if 't' in case else NOISY_T
